@@ -246,6 +246,8 @@ const std::vector<String>& ConfigWriter::GetKeywords()
 		keywords.emplace_back("throw");
 		keywords.emplace_back("try");
 		keywords.emplace_back("except");
+		keywords.emplace_back("in");
+		keywords.emplace_back("debugger");
 	}
 
 	return keywords;
